@@ -91,6 +91,91 @@ Definition sort_fuel (g : graph) : nat := 2 * edges g + 3.
 Definition sort (g : graph) (roots : list nat) : tres :=
   sort_roots (sort_fuel g) g (fun _ => Unsorted) [] roots.
 
+(* ---- the Sorter as a reusable object: state that survives between uses, consumers that stop early ----
+   A Sorter keeps its mark map and its stack between calls. One use = one iteration of the iter.Seq
+   returned by Sorter.Sort: the loop starts from the marks and the stack the Sorter holds, the
+   consumer may stop after [lim] elements (yield returns false: the function returns at once), and
+   the deferred function [clear(s.state); clear(s.stack); s.stack = s.stack[:0]] runs on every way
+   out - normal return, early return, panic. The iterating flag (re-entrant use) is not modelled. *)
+Record sorter := mkSorter { s_marks : marks; s_stack : list nat }.
+Definition sorter_init : sorter := mkSorter (fun _ => Unsorted) [].
+
+(* what the consumer observed: all elements / it stopped after these / these, then the panic *)
+Inductive use_res :=
+| UDone (out : list nat) | UStopped (out : list nat) | UPanic (out : list nat) (suffix : list nat) (v : nat) | UOutOfFuel.
+
+(* lim = None: take everything; Some k: the consumer breaks on receiving its k-th element *)
+Definition lim_next (lim : option nat) : option (option nat) :=
+  match lim with
+  | None => Some None
+  | Some k => if k <=? 1 then None else Some (Some (k - 1))
+  end.
+
+Inductive lloop_res :=
+| LLDone (m : marks) (out : list nat) (lim : option nat) | LLStopped (out : list nat)
+| LLPanic (out : list nat) (suffix : list nat) (v : nat) | LLOutOfFuel.
+
+Fixpoint loop_lim (fuel : nat) (g : graph) (m : marks) (stack : list nat) (out : list nat) (lim : option nat)
+  {struct fuel} : lloop_res :=
+  match fuel with
+  | O => LLOutOfFuel
+  | S f =>
+    match stack with
+    | [] => LLDone m out lim
+    | node :: rest =>
+      match m node with
+      | Unsorted =>
+        let m' := set_mark m node Walking in
+        match push_all m' stack (children g node) with
+        | PPanic s v => LLPanic out s v
+        | Pushed stack' => loop_lim f g m' stack' out lim
+        end
+      | Walking =>
+        match lim_next lim with             (* if !yield(node) { return } *)
+        | None => LLStopped (node :: out)
+        | Some lim' => loop_lim f g (set_mark m node Sorted) rest (node :: out) lim'
+        end
+      | Sorted => loop_lim f g m rest out lim
+      end
+    end
+  end.
+
+(* the range over roots; the first push goes onto whatever stack the Sorter holds *)
+Fixpoint sort_roots_lim (fuel : nat) (g : graph) (m : marks) (stack : list nat) (out : list nat) (roots : list nat)
+  (lim : option nat) : use_res :=
+  match roots with
+  | [] => UDone (rev out)
+  | r :: rs =>
+    match push m stack r with
+    | PPanic s v => UPanic (rev out) s v
+    | Pushed st =>
+      match loop_lim fuel g m st out lim with
+      | LLOutOfFuel => UOutOfFuel
+      | LLPanic o s v => UPanic (rev o) s v
+      | LLStopped o => UStopped (rev o)
+      | LLDone m' out' lim' => sort_roots_lim fuel g m' [] out' rs lim'
+      end
+    end
+  end.
+
+(* one use of the Sorter: the observation, and the Sorter afterwards (the deferred reset) *)
+Definition sorter_use (s : sorter) (g : graph) (roots : list nat) (lim : option nat) : use_res * sorter :=
+  (sort_roots_lim (sort_fuel g + 2 * length (s_stack s)) g (s_marks s) (s_stack s) [] roots lim, sorter_init).
+
+Fixpoint sorter_history (s : sorter) (g : graph) (uses : list (list nat * option nat)) : list use_res :=
+  match uses with
+  | [] => []
+  | (roots, lim) :: r => let (o, s') := sorter_use s g roots lim in o :: sorter_history s' g r
+  end.
+
+(* cutting a complete observation after k elements *)
+Definition cut (k : nat) (u : use_res) : use_res :=
+  match u with
+  | UDone o => if k <=? length o then UStopped (firstn k o) else UDone o
+  | UPanic o s v => if k <=? length o then UStopped (firstn k o) else UPanic o s v
+  | other => other
+  end.
+
 (* ---- specification vocabulary (used by Props/C41.v) ---- *)
 Definition edge (g : graph) (a b : nat) : Prop := In b (children g a).
 (* reachable from the roots by zero or more edges *)
@@ -122,4 +207,32 @@ Definition topo_chk (c : topo_case) : bool :=
                            | _ => false
                            end
   | CTOther _ _ => false
+  end.
+
+(* a history of uses of ONE Sorter on one graph: per use the roots, how many elements the consumer took
+   (0 = all) and what it observed: kind 0 = completed, 1 = stopped, 2 = cycle panic (suffix, v), 3 = other *)
+Inductive hist_case :=
+| CTHist (g : graph) (uses : list (list nat * nat * (nat * list nat * list nat * nat))).
+
+Definition use_eqb (u : use_res) (o : nat * list nat * list nat * nat) : bool :=
+  let '(kind, out, s, v) := o in
+  match u with
+  | UDone x => Nat.eqb kind 0 && list_nat_eqb x out
+  | UStopped x => Nat.eqb kind 1 && list_nat_eqb x out
+  | UPanic x s' v' => Nat.eqb kind 2 && list_nat_eqb x out && list_nat_eqb s' s && Nat.eqb v' v
+  | UOutOfFuel => false
+  end.
+
+Fixpoint uses_eqb (us : list use_res) (os : list (nat * list nat * list nat * nat)) : bool :=
+  match us, os with
+  | [], [] => true
+  | u :: r, o :: q => use_eqb u o && uses_eqb r q
+  | _, _ => false
+  end.
+
+Definition hist_chk (c : hist_case) : bool :=
+  match c with
+  | CTHist g uses =>
+    uses_eqb (sorter_history sorter_init g (map (fun u => let '(roots, k, _) := u in (roots, if Nat.eqb k 0 then None else Some k)) uses))
+             (map (fun u => snd u) uses)
   end.
